@@ -151,6 +151,18 @@ partial def parseVal : List String → Option (GoVal × List String)
     | 'B' => (bytesOfHex? body).map fun b => (.bytes b, rest)
     | 'A' => (bytesOfHex? body).map fun b => (.bytearray b, rest)
     | 'X' => body.toNat?.map fun n => (.user n, rest)
+    | 'Q' => match body.splitOn ":" with          -- narrower signed ints widen to int64
+      | [_, n] => n.toInt?.map fun i => (.int i, rest)
+      | _ => none
+    | 'V' => match body.splitOn ":" with          -- unsigned ints
+      | [_, n] => n.toNat?.map fun u => (.uint u, rest)
+      | _ => none
+    | 'E' => (bytesOfHex? body).map fun b => (.float (F64.ofF32Bits (beNat b)), rest)
+    | 'P' => do                                   -- pointer: the encoder dereferences it
+      let (p, r) ← parseVal rest
+      match r with
+      | ")" :: r' => pure (p, r')
+      | _ => none
     | 'C' => (parseClassTok t).map fun (m, n) => (.cls m n, rest)
     | 'l' => (parseSeq rest []).map fun (xs, r) => (.list xs, r)
     | 't' => (parseSeq rest []).map fun (xs, r) => (.tuple xs, r)
